@@ -118,7 +118,8 @@ func coqGraph(g *GraphSpec) string {
 	return lib.CoqApp("Build_graph", "["+strings.Join(ns, ";\n     ")+"]", mode, lib.CoqBool(g.Mode == "wf"), lib.CoqNat(max))
 }
 
-func coqSpec(g *GraphSpec) string {
+func coqSpec(c *Case, gi int) string {
+	g := &c.Graphs[gi]
 	var st, leaf []int
 	var reruns, inkeys []string
 	for _, n := range g.Nodes {
@@ -135,7 +136,7 @@ func coqSpec(g *GraphSpec) string {
 			reruns = append(reruns, lib.CoqPair(lib.CoqN(uint64(n.ID)), coqIDs(n.Rerun)))
 		}
 	}
-	return lib.CoqApp("Build_gspec", coqGraph(g), lib.CoqBool(g.State), coqIDs(st), lib.CoqList(reruns), coqIDs(g.Before), coqIDs(g.After),
+	return lib.CoqApp("Build_gspec", coqGraph(g), lib.CoqBool(g.State), coqIDs(st), lib.CoqList(reruns), coqIDs(c.PassedBefore(gi)), coqIDs(c.PassedAfter(gi)),
 		coqIDs(leaf), lib.CoqList(inkeys))
 }
 
@@ -239,7 +240,7 @@ func CoqTerm(c *Case, obs *RunObs) string {
 	}
 	gs := make([]string, len(c.Graphs))
 	for i := range c.Graphs {
-		gs[i] = coqSpec(&c.Graphs[i])
+		gs[i] = coqSpec(c, i) // gs_before / gs_after: the lists as handed to Compile (shared lists: unsorted, duplicates, foreign names)
 	}
 	mods := make([]string, len(c.Calls))
 	for i, cs := range c.Calls {
